@@ -13,6 +13,10 @@ VERIF = os.path.dirname(HERE)
 sys.path.insert(0, VERIF)
 
 from vlib import core  # noqa: E402
+import logging  # noqa: E402
+_l = logging.getLogger('IsoQuant')
+_l.addHandler(logging.NullHandler())
+_l.propagate = False
 
 LEVELS = {}
 
